@@ -36,7 +36,7 @@ func init() {
 	})
 	register(&Rule{
 		ID: "R03.2", Props: []string{"C03", "C07", "C02"}, Engine: "order (path automaton with boolean flag sensitivity)",
-		Text: "ProcessBlockPut: every path that returns false (shutdown) performed notifyAndSyncDataLocked(false), then notifyAndSyncDataLocked(true), then writePersistentStateRetrying; every path that returns true performed notifyAndSyncDataLocked(false) then writePersistentStateRetrying, never the final sync, and received from a clock.NewTimer channel before the sync (minimum epoch interval), storing the received time in lastSynchronizationTime; ProcessBlockRelease receives from the release wake-up channel and then calls writePersistentStateRetrying",
+		Text:  "ProcessBlockPut: every path that returns false (shutdown) performed notifyAndSyncDataLocked(false), then notifyAndSyncDataLocked(true), then writePersistentStateRetrying; every path that returns true performed notifyAndSyncDataLocked(false) then writePersistentStateRetrying, never the final sync, and received from a clock.NewTimer channel before the sync (minimum epoch interval), storing the received time in lastSynchronizationTime; ProcessBlockRelease receives from the release wake-up channel and then calls writePersistentStateRetrying",
 		Floor: 4, MustExist: true,
 		Run: runR032,
 	})
